@@ -736,4 +736,59 @@ theorem pieces_complete (u0 : Str) : ∀ (pend : Option Str) (b v : Str), b.all 
               refine ⟨(b0 ++ c :: p) :: ps, after, ?_, by simpa using hlen, by simpa using hfl⟩
               simp [pieces, splitGo, h1, h2, h3, hp.1, hp.2]
 
+/-! ### position of insert_record -/
+
+/-- Number of `$PROBLEM` records in a list (as an `Int` offset of the problem counter). -/
+def nProblems (l : List Rec) : Int := (l.countP (fun r => r.name == "PROBLEM") : Nat)
+
+theorem scanLast_append (active : Int) (pred : Rec → Bool) (l1 : List Rec) :
+    ∀ (l2 : List Rec) (i : Nat) (cur : Int) (acc : Option Nat),
+      scanLast active pred (l1 ++ l2) i cur acc =
+        scanLast active pred l2 (i + l1.length) (cur + nProblems l1) (scanLast active pred l1 i cur acc) := by
+  induction l1 with
+  | nil => intro l2 i cur acc; simp [scanLast, nProblems]
+  | cons r rs ih =>
+    intro l2 i cur acc
+    simp only [List.cons_append, scanLast]
+    rw [ih]
+    have h1 : i + 1 + rs.length = i + (r :: rs).length := by simp; omega
+    rw [h1]
+    congr 1
+    by_cases hp : (r.name == "PROBLEM") = true
+    · simp [nProblems, hp]; omega
+    · simp [nProblems, hp]
+
+/-- No later hit: the accumulator survives. -/
+theorem scanLast_none (active : Int) (pred : Rec → Bool) (l : List Rec) :
+    ∀ (i : Nat) (cur : Int) (acc : Option Nat),
+      (∀ (a : List Rec) (x : Rec) (b : List Rec), l = a ++ x :: b →
+        ¬(cur + nProblems (a ++ [x]) = active ∧ pred x = true)) →
+      scanLast active pred l i cur acc = acc := by
+  induction l with
+  | nil => intro i cur acc _; rfl
+  | cons r rs ih =>
+    intro i cur acc h
+    simp only [scanLast]
+    have h0 := h [] r rs rfl
+    have hcur : (if r.name == "PROBLEM" then cur + 1 else cur) = cur + nProblems [r] := by
+      by_cases hp : (r.name == "PROBLEM") = true <;> simp [nProblems, hp]
+    rw [hcur]
+    have hno : ((cur + nProblems [r] == active) && pred r) = false := by
+      cases hb : ((cur + nProblems [r] == active) && pred r)
+      · rfl
+      · exfalso; apply h0
+        simp only [Bool.and_eq_true, beq_iff_eq] at hb
+        simpa using hb
+    rw [hno]
+    simp only [Bool.false_eq_true, ↓reduceIte]
+    apply ih
+    intro a x b hl hx
+    apply h (r :: a) x b (by simp [hl])
+    have : nProblems (r :: a ++ [x]) = nProblems [r] + nProblems (a ++ [x]) := by
+      simp [nProblems, List.countP_cons]; omega
+    rw [this]
+    constructor
+    · have := hx.1; omega
+    · exact hx.2
+
 end Pharmpy.C03
